@@ -4,9 +4,11 @@
    What is proved are the premises of Hoffman-Gelman's invariance argument, for the executable model of
    cuqi.experimental.mcmc.NUTS.step / cuqi.sampler.NUTS._sample (Model/C08_NUTS.v), for EVERY state space,
    leapfrog map, Hamiltonian, U-turn predicate, slice variable, depth and start, plus the invariance itself on
-   one orbit for bounded depth (exhaustive).  The step from there to "the target measure is invariant" for
-   unbounded depth (integration over orbits, momentum resampling, slice variable) is the textbook argument and
-   is NOT formalised: see C08_orbit_stationary_bounded for what is machine-checked of it. *)
+   one orbit for EVERY depth (C08_orbit_stationary; doubly stochastic form C08_orbit_stationary_alldepth in
+   Props/C08_Cycle.v), on closed orbits (Props/C08_Cycle.v) and on every finite state space, including the mixture
+   over a layer-cake slice variable and any number of transitions (Props/C08_Finite.v).  NOT formalised: that the
+   class masses of the real slice variable H0 - Exp(1) are integrals of e^t, that momentum resampling preserves the
+   target, and the passage from finite state spaces to R^2d (integration over orbits). *)
 From CV Require Import Base.Tac Base.Ext Base.LinAlg Base.QcLin Model.C08_NUTS.
 From CV Require Import Proofs.C08_Prog Proofs.C08_Leap Proofs.C08_Tree Proofs.C08_Top Proofs.C08_Law Proofs.C08_Orbit
                        Proofs.C08_Stationary Proofs.C08_Block Proofs.C08_Alive Proofs.C08_Sim Proofs.C08_LeapD Proofs.C08_Offset.
